@@ -340,6 +340,23 @@ def split_doc(parts, space):
   return doc_spec(node("body", [node("div", [p], id="d1")], id="b"), [{"id": "r1"}])
 
 
+WSMIX_TEXTS = [["A", "A ", " A "], ["X", " X", "X ", " "], [" B", "B", " B "]]
+
+
+def fam_wsmix_items():
+  """three adjacent spans, each under xml:space default or preserve, in a default or a preserved paragraph; every text starts or
+  ends with, or consists of, a space: the white space at a boundary between a preserved and a collapsed run is where a
+  carried 'previous character was a space' state goes wrong"""
+  return Product([WSMIX_TEXTS[0], WSMIX_TEXTS[1], WSMIX_TEXTS[2], ["default", "preserve"], ["default", "preserve"], ["default", "preserve"],
+                  ["default", "preserve"]])
+
+
+def wsmix_doc(t1, t2, t3, m1, m2, m3, pm):
+  kids = [_span("s0", t1, sp=m1), _span("s1", t2, sp=m2), _span("s2", t3, sp=m3)]
+  p = node("p", kids, id="p1", b=F(1), e=F(2), sp=pm, r="r1")
+  return doc_spec(node("body", [node("div", [p], id="d1")], id="b"), [{"id": "r1"}])
+
+
 def blank_doc(si, second):
   """a paragraph whose only text is preserved white space inside a (possibly styled) span; optionally a second, ordinary one"""
   sp = node("span", [text("  ")], id="s1", sp="preserve", st=copy.deepcopy(STYLE_MENU[si]))
